@@ -10,7 +10,7 @@ for d in sorted(glob.glob('seeded/*/')):
     if name in hist:
         v['history']=hist[name]
     json.dump(m,open(d+'meta.json','w'),indent=1)
-    first='missed' if name in hist and hist[name].startswith('first run: MISSED') else ('caught (alphabet widened from the description before the first run)' if name in hist else 'caught')
+    first='missed' if name in hist and hist[name].startswith('first run: MISSED') else ('caught (after a widening prompted by a description)' if name in hist else 'caught')
     rows.append((name,m['property'],m.get('summary','')[:170].replace('|','/').replace('\n',' '),m.get('needs','')[:170].replace('|','/').replace('\n',' '),first,'yes',(hist.get(name) or '; '.join(v.get('first_violation',[])))[:260].replace('|','/')))
 out=["# Seeded property-breaking changes","",
 "Each directory holds one change written by an independent sub-agent that saw only the text of the property and a scratch worktree of the repository (nothing from /verif; second-round authors were additionally told in one sentence what the first-round change for their property was, so that they would write a different one): `patch.diff`, the author's demonstration (fails with the change, passes without), and `meta.json` (what it breaks, what it needs to manifest, what was run to confirm it). Every change compiles and passes the repository's own suite; every demonstration was re-run by the harness author with and without the change. `./seedtest.sh <patch> <Cxx>` applies one to /repo, runs the suite and the check, and restores /repo.","",
